@@ -34,6 +34,7 @@ VARIANTS = {
              "-fno-omit-frame-pointer"],
     "fast": ["-g", "-O1", "-fsanitize=undefined", "-fno-sanitize-recover=undefined"],
     "plain": ["-g", "-O1"],
+    "cov": ["-g", "-O0", "-fprofile-instr-generate", "-fcoverage-mapping"],
     "fuzz": ["-g", "-O1", "-fsanitize=address,undefined", "-fno-sanitize-recover=undefined",
              "-fno-omit-frame-pointer", "-fsanitize=fuzzer-no-link"],
 }
